@@ -489,6 +489,52 @@ def _structural(ctx) -> None:
             if not any(pol and t[0] == "cmp" and t[1] == "Eq" and {t[2], t[3]} == {ln(doms[0]), ln(doms[1])} for t, pol in fc):
                 probs.append("a << branch has no column-count guard")
     ctx.ob("e.structural-ops", f, "<<", not probs and n > 0, "<< appends per column after a width check", f.node, message="; ".join(probs[:2]))
+    # table << x / x << table: a string (one cell) and a mapping (no column order) are not rows of cells - zip() would spread the
+    # characters / the KEYS over the columns.  For `other` of either kind no result is reachable (three-valued evaluation)
+    KIND_NAMES = {
+        "str": ({"str", "bytes", "Sized", "Iterable", "Sequence", "Collection", "Container", "Reversible", "Hashable"},
+                {"Vector", "Table", "Row", "list", "tuple", "dict", "Mapping", "set", "range", "int", "float", "Iterator", "bytearray"}),
+        "Mapping": ({"Mapping", "dict", "Sized", "Iterable", "Collection", "Container"},
+                    {"Vector", "Table", "Row", "list", "tuple", "str", "bytes", "bytearray", "set", "range", "int", "float", "Iterator", "Sequence"}),
+    }
+
+    def kind_truth(c, O, kind):
+        yes, no = KIND_NAMES[kind]
+        if c[0] == "bool":
+            rs = []
+            for x in c[2]:
+                r = kind_truth(x, O, kind)
+                rs.append(r)
+                if (c[1] == "and" and r is False) or (c[1] == "or" and r is True):
+                    break
+            if c[1] == "and":
+                return False if False in rs else (None if None in rs else True)
+            return True if True in rs else (None if None in rs else False)
+        if c[0] == "un" and c[1] == "Not":
+            r = kind_truth(c[2], O, kind)
+            return None if r is None else not r
+        if c[0] == "call" and c[1] == ("name", "isinstance") and len(c[2]) == 2 and c[2][0] == O:
+            names = {x[1] for x in subterms(c[2][1]) if x[0] == "name"}
+            if names & yes:
+                return True
+            return False if names and names <= no else None
+        return None
+    for q in ("table.Table.__lshift__", "table.Table.__rlshift__"):
+        g = prog.functions.get(q)
+        if g is None:
+            continue
+        gi = interp_of(prog, g)
+        O = ("param", g.params[1])
+        reach = []
+        for kind in ("str", "Mapping"):
+            for e in gi.events:
+                if e.kind == "return" and e.depth == 0 and not any(kind_truth(t, O, kind) is (not pol) for t, pol in flatten_conds(e.conds)):
+                    reach.append((kind, e))
+        ctx.ob("e.structural-ops", g, "row-of-cells", not reach, "a string or a mapping is refused as a row (no result reachable for either)",
+               (reach[0][1].node if reach else g.node),
+               message=f"{q}: a result is reachable for a {' / '.join(sorted({k for k, _ in reach}))} operand (line "
+                       f"{getattr(reach[0][1].node, 'lineno', 0) if reach else 0}): t << {{'b': 'B', 'a': 'A'}} appends the row ('b', 'a') - the "
+                       f"mapping's KEYS - and t << 'pq' spreads the characters over the columns")
     # Vector.__lshift__ (the per-column append): a string is ONE cell, never a sequence of cells
     vl = prog.func("vector.Vector.__lshift__")
     it = interp_of(prog, vl)
@@ -729,6 +775,13 @@ def _structural(ctx) -> None:
 
 _T, _V = "table", "vector"
 MUTANTS = [
+    dict(id="lshift-row-may-be-a-mapping", module="table",
+         old="		if not isinstance(other, Iterable) or isinstance(other, (str, bytes, bytearray, Mapping)):\n			# (a string is one cell",
+         new="		if False:\n			# (a string is one cell", rules=["e.structural-ops"], desc="reverts fix 7ae68a8"),
+    dict(id="rlshift-row-may-be-a-mapping", module="table",
+         old="		if not isinstance(other, Iterable) or isinstance(other, (str, bytes, bytearray, Mapping)):\n			raise SerifTypeError(\"Cannot prepend",
+         new="		if not isinstance(other, Iterable) or isinstance(other, (str, bytes, bytearray)):\n			raise SerifTypeError(\"Cannot prepend",
+         rules=["e.structural-ops"], desc="reverts fix 7ae68a8 for dict << table"),
     dict(id="lshift-table-operand-concatenated", module="vector", old="		if isinstance(other, Vector) and other.ndims() == 2 and self.ndims() != 2:",
          new="		if False:", rules=["e.structural-ops"], desc="reverts fix 41fe18d"),
     dict(id="vector-data-truth-tested", module="vector", old="		elif isinstance(initial, Vector) and initial.ndims() <= 1:", new="		elif False:",
